@@ -141,7 +141,8 @@ type Case struct {
 	GetCollateral bool            `json:"get_collateral"`
 	CheckCRL      bool            `json:"check_crl"`
 	Embedded      bool            `json:"embedded_root"`
-	DefaultTime   bool            `json:"default_time,omitempty"` // leave Options.Now nil (the time of the call); only compared between runs, never judged by the reference
+	EmbeddedRoot  []byte          `json:"embedded_root_der,omitempty"` // with Embedded: the certificate installed as the embedded root for this case (hook)
+	DefaultTime   bool            `json:"default_time,omitempty"`      // leave Options.Now nil (the time of the call); only compared between runs, never judged by the reference
 	Roots         [][]byte        `json:"roots,omitempty"`
 	Times         [5]time.Time    `json:"times"`
 	Resp          map[string]Resp `json:"resp,omitempty"`
